@@ -67,6 +67,9 @@ var commonAssumptions = []string{
 const realVsStub = "real: client, frame, segment, message, primitive, datatype, compression, crc packages (instrumented copy of the working tree), Go channels/mutexes/contexts/timers; stub: TCP (sim/net.go), clock (synctest), OS scheduler (seeded baton), logging (zerolog disabled)"
 
 var cfgs = map[string]*propCfg{
+	"C18": {Profile: "codecs", QuickCases: 2400, ThoroughCases: 120000, QuickSecs: 120, ThoroughSecs: 1800, Level: "exploration",
+		Rule: "case = 2-4 tasks making 1-3 groups of calls each on SHARED instances (frame codecs with no/LZ4/Snappy compressor incl. raw decoding and conversion, segment codecs without/with LZ4, both compressors in both formats, the datacodec package singletons and shared list/set/map/tuple codecs) with generated frames, payloads and values; every statement of the codec packages is a scheduling point and the interleaving is drawn from the tape. Oracle: each call's result (bytes, decoded frame/value or error text) equals the result of the same call in a sequential pass on the same instances before the concurrent phase, and a second sequential pass afterwards still agrees. distinct = distinct event-log fingerprints; non-trivial = the concurrent phase contained at least one switch between tasks that were both inside repository code",
+		Assumptions: []string{"the data-race clause is checked by a supplementary, non-deterministic run of the same workload on the un-instrumented tree under the Go race detector (labelled in the evidence); the deterministic scheduler cannot observe races that never change a result"}},
 	"C15": {Profile: "client", QuickCases: 960, ThoroughCases: 60000, QuickSecs: 120, ThoroughSecs: 1800, Level: "exploration",
 		Rule: "case = three seeded fault-free sessions (version, compression, auth, link capacity/latency/chunking and schedule drawn): (1) real client <-> real server exchanging generated version-valid frames of every message kind (framegen), compared after normalisation in both directions, with both wire taps parsed by the independent refwire codec (unframed handshake, then valid v5 segments, envelopes not individually compressed); (2) a raw refwire client against the real server and (3) a raw refwire server against the real client, packing several envelopes into one segment and splitting envelopes (up to ~400 KiB) over non-self-contained segments at drawn points. distinct = distinct event-log fingerprints; non-trivial = at least one frame delivered and at least one switch between tasks inside repository code",
 		Assumptions: []string{"the raw peer spells the COMPRESSION option as the library's client does (upper case) and puts at least the 9-byte envelope header into the first part of a split envelope", "frames are generated version-valid by harness/sim/framegen.go, under-approximating validity"}},
@@ -513,6 +516,23 @@ func cmdRun(prop, tier string) int {
 		fmt.Printf("VIOLATION property=%s replay=%s\n", prop, path)
 		fmt.Printf("  class: %s\n  seen in %d runs; tape %d draws (%d non-zero) minimised to %d non-zero\n  %s\n", k, agg.VioCounts[k], f.Replay.OrigTapeLen, f.Replay.OrigNonzero, f.Replay.MinNonzero, firstLines(f.V.Message, 6))
 	}
+	if prop == "C18" {
+		secs := 20
+		if tier == "thorough" {
+			secs = 300
+		}
+		rs := raceSupplement(scratch, seed, secs)
+		agg.Exhaustive["race_detector_supplement (non-deterministic, outside the technique family)"] = rs.summary
+		agg.Counters["race_supplement_iterations"] = rs.iterations
+		agg.Counters["race_supplement_calls"] = rs.calls
+		if rs.report != "" {
+			path := filepath.Join(verifDir, "replays", "C18-race-report.txt")
+			os.WriteFile(path, []byte(fmt.Sprintf("VERIF_SEED=%d\nreplay is best-effort: the race detector observes executions it does not control\n\n%s", seed, rs.report)), 0644)
+			nViol++
+			exit = 1
+			fmt.Printf("VIOLATION property=C18 replay=%s\n  %s\n", path, firstLines(rs.report, 12))
+		}
+	}
 	wall := time.Since(start).Seconds()
 	writeEvidence(prop, tier, seed, cfg, agg, len(distinct), nViol, wall, complete, instr, knownHit, treeHash)
 	fmt.Printf("vcheck: property=%s tier=%s seed=%d cases=%d runs=%d distinct_nontrivial=%d steps=%d violations=%d known_hit=%d wall=%.1fs complete=%v\n",
@@ -660,3 +680,56 @@ func main() {
 }
 
 func removeAll(p string) { os.RemoveAll(p) }
+
+type raceResult struct {
+	summary    string
+	report     string
+	iterations int
+	calls      int
+}
+
+// raceSupplement builds the harness with -race from the already prepared scratch tree (no scheduler is
+// installed in that binary, so the inserted yields are no-ops) and runs the C18 workload with real
+// parallel goroutines for the given number of seconds.
+func raceSupplement(scratch string, seed int64, secs int) raceResult {
+	bin := filepath.Join(scratch, "race.test")
+	out, err := run(filepath.Join(scratch, "harness"), []string{"CGO_ENABLED=1"}, goBin, "test", "-race", "-tags", "verif", "-c", "-o", bin, "./sim")
+	if err != nil {
+		infra("race build failed: %v\n%s", err, out)
+	}
+	jp := filepath.Join(scratch, "racejob.json")
+	op := filepath.Join(scratch, "raceout.json")
+	b, _ := json.Marshal(map[string]interface{}{"seed": seed, "seconds": secs, "out": op})
+	os.WriteFile(jp, b, 0644)
+	cmd := exec.Command(bin, "-test.run", "^TestRaceSupplement$", "-test.timeout", "0")
+	cmd.Dir = scratch
+	cmd.Env = append(os.Environ(), "VERIF_RACE_JOB="+jp, "GORACE=halt_on_error=0 history_size=2")
+	outb, _ := cmd.CombinedOutput()
+	text := string(outb)
+	var res struct {
+		Iterations int      `json:"iterations"`
+		Calls      int      `json:"calls"`
+		Mismatches []string `json:"mismatches"`
+	}
+	ob, rerr := os.ReadFile(op)
+	if rerr != nil {
+		tail := text
+		if len(tail) > 3000 {
+			tail = tail[len(tail)-3000:]
+		}
+		infra("race supplement produced no result: %s", tail)
+	}
+	json.Unmarshal(ob, &res)
+	rr := raceResult{iterations: res.Iterations, calls: res.Calls}
+	rr.summary = fmt.Sprintf("%d iterations, %d concurrent calls on shared codecs in %ds under -race with real goroutines; data races reported: %v; result mismatches: %d", res.Iterations, res.Calls, secs, strings.Contains(text, "DATA RACE"), len(res.Mismatches))
+	if i := strings.Index(text, "WARNING: DATA RACE"); i >= 0 {
+		rep := text[i:]
+		if len(rep) > 6000 {
+			rep = rep[:6000]
+		}
+		rr.report = rep
+	} else if len(res.Mismatches) > 0 {
+		rr.report = "result mismatch under real parallel execution:\n" + strings.Join(res.Mismatches, "\n")
+	}
+	return rr
+}
